@@ -2348,6 +2348,11 @@ class Ggate(Gate):
         super().__init__([S, d])
         self.ns = S.shape[-1] // 2
 
+    def merge(self, other):
+        # The parameters are a symplectic matrix and a displacement vector: the generic Gate rule
+        # (add the first parameters, compare the others with ==) does not apply.
+        raise MergeFailure("General Gaussian gates cannot be merged.")
+
     def _apply(self, reg, backend, **kwargs):
         S, d = par_evaluate(self.p)
         backend.gaussian_gate(S, d, *reg)
